@@ -402,6 +402,8 @@ def make_file_pair(rng, fmt, workdir, n=None, pos_cls=None):
         t_est = t_est - offset
     est = {"p": p, "R": R, "t": t_est}
     refp, estp = os.path.join(workdir, "ref.txt"), os.path.join(workdir, "est.txt")
+    if rng.random() < .12:
+        refp, estp = os.path.join(workdir, "gt 100%.txt"), os.path.join(workdir, "est_%d (v2).txt")
     if fmt == "tum":
         open(refp, "w").write(rm.write_tum_text(ref["t"], ref["p"], gen.quats_of(ref["R"])))
     elif fmt == "kitti":
@@ -413,6 +415,11 @@ def make_file_pair(rng, fmt, workdir, n=None, pos_cls=None):
         open(estp, "w").write(rm.write_kitti_text(est["p"], est["R"]))
     else:
         open(estp, "w").write(rm.write_tum_text(est["t"], est["p"], gen.quats_of(est["R"])))
+    for pth in (refp, estp):
+        if rng.random() < .12:
+            # a file whose last line has no line terminator
+            txt = open(pth, newline="").read()
+            open(pth, "w", newline="").write(txt.rstrip("\r\n"))
     return {"fmt": fmt, "ref_path": refp, "est_path": estp, "offset": offset, "dt": dt, "ext": ext,
             "n_ref": n, "n_est": len(idx), "t_ref": ref["t"], "t_est": t_est}
 
